@@ -16,7 +16,7 @@ RULE = ('matrices n<=40: SPD (random, 1D Galerkin), diagonally dominant nonsymme
         'none/one/all) x strategies {new,trunc,func_supp,cell_supp} x smoothers {gs,forward_gs,backward_gs,symmetric_gs,exact}; drivers with '
         'recording step wrappers; twogrid with u0 None/list/array; distinct by descriptor; non-trivial if n >= 2')
 MIN_NONTRIVIAL = {'quick': 500, 'thorough': 10000}
-REQUIRED_COUNTERS = ['oracle:gs_textbook', 'oracle:gs_fixed_point', 'oracle:gs_energy', 'oracle:mg_fixed_point', 'oracle:mg_energy',
+REQUIRED_COUNTERS = ['oracle:gs_textbook', 'oracle:gs_fixed_point', 'oracle:gs_energy', 'oracle:mg_fixed_point', 'oracle:mg_energy', 'oracle:mg_energy_operator_norm',
                      'oracle:smoothing_sets', 'oracle:driver_trace', 'oracle:twogrid']
 VARIANTS = {'quick': ['plain'], 'thorough': ['plain', 'asan']}
 WORKERS_SAN = 8
@@ -245,6 +245,23 @@ def _mg(rec, case):
         if not (E2 <= E * (1 + 1e-9) + 1e-14 * (1 + E)):
             rec.violation(dict(sig, oracle='cycle does not increase the energy-norm error'), c, {'before': E, 'after': E2, 'iteration': it}); return
         x, E = x2, E2
+    # ... for *every* error vector: the cycle is affine in x, so its error propagation matrix is observed column by column (unit errors
+    # added to the exact solution) and its energy-norm operator norm |A^{1/2} E A^{-1/2}|_2 must not exceed one
+    if len(free) <= 120:
+        cols = []
+        for j in range(len(free)):
+            xj = xs.copy(); xj[free[j]] += 1.0
+            ok, yj = guarded(rec, c, dict(sig, stage='step(x* + e_j)'), step, xj)
+            if not ok: return
+            cols.append((yj - xs)[free])
+        Ep = np.array(cols).T
+        Lc = np.linalg.cholesky(Aff)
+        Mn = np.linalg.solve(Lc, (Lc.T @ Ep).T).T          # L^T E L^-T
+        nrm = float(np.linalg.norm(Mn, 2))
+        rec.count('oracle:mg_energy_operator_norm')
+        rec.ratio('mg_energy_operator_norm', nrm, 1 + 1e-10 * cond)
+        if not nrm <= 1 + 1e-10 * cond:
+            rec.violation(dict(sig, oracle='energy-norm operator norm of the error propagation of one cycle <= 1'), c, {'norm': nrm, 'cond': float(cond)})
 
 def _driver(rec, case):
     from pyiga import solvers
